@@ -205,6 +205,28 @@ def ioClose (cfg : Cfg) (s : St) (success : Bool) : St :=
     else s
   ioCloseDest s1
 
+/-! ### Abstract specification of a sparse writer (any strategy) -/
+
+/-- Does a trace of `write`/`lseek(SEEK_CUR)` calls deliver the bytes `W` to a file it started at the end of?
+    Every `write n` stands for the next `n` bytes of `W`; every `lseek(+d)` skips the next `d` bytes of `W`, which must all
+    be zero; a skipped range must be followed by a later write (a hole at the very end would not extend the file); all of `W`
+    is accounted for. `gap` = a hole is open. Flag changes and `lseek(0, SEEK_END)` move nothing. Any partition of `W` into
+    written ranges and skipped all-zero ranges is accepted — whole buffers, sub-blocks, byte-exact runs. -/
+def traceDelivers : List Ev → List UInt8 → Bool → Bool
+  | [], W, gap => W.isEmpty && !gap
+  | .write n :: t, W, _ => decide (0 < n) && decide (n ≤ W.length) && traceDelivers t (W.drop n) false
+  | .seekCur d _ :: t, W, gap => decide (d ≤ W.length) && isSparse (W.take d) && traceDelivers t (W.drop d) (gap || decide (0 < d))
+  | .setfl _ _ :: t, W, gap => traceDelivers t W gap
+  | .seekEnd _ :: t, W, gap => traceDelivers t W gap
+
+/-- Replaying such a trace against the kernel model, the data of each write being the corresponding slice of `W`. -/
+def replayTrace : List Ev → List UInt8 → Dest → Dest
+  | [], _, d => d
+  | .write n :: t, W, d => replayTrace t (W.drop n) (d.write (W.take n))
+  | .seekCur k _ :: t, W, d => replayTrace t (W.drop k) ((d.seekCur k).getD d)
+  | .setfl _ _ :: t, W, d => replayTrace t W d
+  | .seekEnd _ :: t, W, d => replayTrace t W d
+
 /-! ### liblzma as seen by the tool -/
 
 inductive Ret
@@ -501,7 +523,7 @@ def setExitRowOk (row : Nat × Nat × Nat) : Bool :=
 /-- One row of `Gen.C18.openTable` (see harness/gen_c18.c) against `openStdout` + `ioCloseDest`. -/
 def openRowOk (row : List Nat) : Bool :=
   match row with
-  | [isReg, app, nb, pos, nosp, mode, failed, ts, appOpen, nbOpen, offOpen, appClosed, nbClosed, restoreLeft] =>
+  | [isReg, app, nb, pos, nosp, mode, failed, ts, appOpen, nbOpen, offOpen, appClosed, nbClosed] =>
     let size := 100
     let off := if pos == 0 then 40 else if pos == 1 then 100 else 160
     let d : Dest := { kind := if isReg == 1 then .regular else .other,
@@ -513,7 +535,7 @@ def openRowOk (row : List Nat) : Bool :=
     failed == 0 && (s.trySparse == (ts == 1)) && (s.dest.flags.append == (appOpen == 1))
       && (s.dest.flags.nonblock == (nbOpen == 1)) && (s.dest.offset == offOpen)
       && (c.dest.flags.append == (appClosed == 1)) && (c.dest.flags.nonblock == (nbClosed == 1))
-      && (c.restoreFlags == (restoreLeft == 1)) && s.dest.content == d.content
+      && (c.restoreFlags == false) && s.dest.content == d.content
   | _ => false
 
 end XzVerif.Sparse
